@@ -138,6 +138,10 @@ class Accounting(Flow):
         names = []
         if stmt.get("k") == "decl":
             names = ([stmt["n"]] if stmt.get("n") else []) + list(stmt.get("binds") or [])
+        if stmt.get("k") == "decl" and is_expr(stmt.get("i")) and not stmt.get("ty", "").endswith("&"):
+            src = self.nm.coin(stmt["i"])
+            if src:
+                state = self._map(state, lambda alt: alt | {("moved", src)})
         if names:
             for n in names:
                 pend = [f for alt in state for f in alt if len(f) > 1 and f[1] == n and f[0] in ("padd", "pdirty")]
@@ -182,7 +186,8 @@ class Accounting(Flow):
                 if X is None:
                     self.unknown.append((stmt.get("l"), show(e)))
                     return state
-                self._event(stmt, "usage-sub", X, state)
+                self._event(stmt, "usage-sub", X, state, forbid=[("moved", X)],
+                            text="the usage of %s's coin is read for TrySub(cachedCoinsUsage, .) after the coin was handed out" % X)
                 return self._map(state, lambda alt: alt | {("usub", X)})
             return state
         # --- SetDirty
@@ -199,8 +204,15 @@ class Accounting(Flow):
             self._event(stmt, "dirty-inc", "", state, need_any=[("pinc",)], text="++m_dirty_count must follow a SetDirty on every path")
             return self._map(state, lambda alt: alt - {("pinc",)})
         # --- coin writes
+        if e[0] == "b" and e[1] == "=" and not nm.coin(e[2]) and nm.coin(e[3]):
+            Y = nm.coin(e[3])          # `<other object> = [std::move](<entry>.coin)`: std::move is transparent in the facts
+            return self._map(state, lambda alt: alt | {("moved", Y)})
         if e[0] == "b" and e[1] == "=" and nm.coin(e[2]):
             X = nm.coin(e[2])
+            Y = nm.coin(e[3])
+            if Y and Y != X:
+                state = self._map(state, lambda alt: alt | {("moved", Y)})
+            state = self._map(state, lambda alt: alt - {("moved", X)})
             self._event(stmt, "coin-assign", X, state, need_any=[("new", X), ("usub", X)],
                         text="overwriting %s's coin needs a new slot or TrySub(cachedCoinsUsage, old usage) first" % X)
             def upd(alt):
@@ -231,7 +243,8 @@ class Accounting(Flow):
             if X is None:
                 self.unknown.append((stmt.get("l"), show(e)))
                 return state
-            self._event(stmt, "usage-add", X, state, need_any=[("padd", X)], text="cachedCoinsUsage += usage(%s) must follow a write of that entry's coin" % X)
+            self._event(stmt, "usage-add", X, state, need_any=[("padd", X)], forbid=[("moved", X)],
+                        text="cachedCoinsUsage += usage(%s) must follow a write of that entry's coin (and precede any hand-out of it)" % X)
             return self._map(state, lambda alt: alt - {("padd", X)})
         if e[0] == "b" and e[1] in ASSIGN_OPS and e[2] in (THIS_USAGE, THIS_DIRTY):
             if e[1] == "=" and match(["int", 0], strip(e[3])):
@@ -307,7 +320,7 @@ def accounting(ctx, P):
         if all(k[1] == "exit" for k in fl.events):
             continue          # read-only function: nothing to pair
         for (line, kind, X), probs in sorted(fl.events.items(), key=lambda kv: (kv[0][0] or 0, kv[0][1], kv[0][2])):
-            if kind in ("dirty-sub", "usage-sub", "reset-usage", "reset-dirty", "clear-all") and not probs:
+            if kind in ("dirty-sub", "reset-usage", "reset-dirty", "clear-all") and not probs:
                 continue
             nev += 1
             text = {
@@ -315,6 +328,8 @@ def accounting(ctx, P):
                 "dirty-inc": "++m_dirty_count is paired with a preceding SetDirty on every path",
                 "coin-assign": "%s's coin is overwritten only in a new slot or after TrySub(cachedCoinsUsage, old usage)" % X,
                 "coin-clear": "%s's coin is cleared only after TrySub(cachedCoinsUsage, old usage)" % X,
+                "usage-sub": "the DynamicMemoryUsage() of %s's coin subtracted from cachedCoinsUsage is read before that coin is handed out (assigned as a whole object "
+                             "into another object - std::move is transparent to the extractor), on every path" % X,
                 "usage-add": "cachedCoinsUsage += usage(%s) is paired with a preceding write of that coin on every path" % X,
                 "erase": "%s is erased only after its memory usage was subtracted (or it is a new empty slot)" % X,
                 "erase/dirty": "%s is erased only if not counted in m_dirty_count (new, non-dirty, or subtracted)" % X,
